@@ -1,11 +1,12 @@
-"""C19 finding: a page's `copy_subdir` entry containing '..' is joined to <output_dir>/page/<location>
+"""C19 (repaired defect, kept as a regression demonstration; exit code 1 = the defect is back):
+a page's `copy_subdir` entry containing '..' is joined to <output_dir>/page/<location>
 without any check (ford/output.py PagetreePage.writeout: copytree(from_path / item, to_path / item)),
 so a run creates files outside the output directory.
 
 Layout:  <tmp>/shared/data/f.txt      a directory next to the project
          <tmp>/proj/pages/index.md    with  copy_subdir: ../../shared
          <tmp>/proj/proj.md           output_dir: ./doc
-Observed: <tmp>/proj/shared/data/f.txt is created (outside <tmp>/proj/doc).
+Observed before the repair: <tmp>/proj/shared/data/f.txt is created (outside <tmp>/proj/doc).
 Expected: nothing outside <tmp>/proj/doc changes.
 Exit code 1 while the defect is present.  Run with PYTHONPATH=/repo (python -m ford must work)."""
 import os, pathlib, shutil, subprocess, sys, tempfile
